@@ -2,7 +2,7 @@ package verifsim
 
 // safetyRun: the hostile-network family, one run in six with a directed restart prefix.
 func safetyRun(arm func(*Sim)) func(*Tape, bool) *RunResult {
-	return mixRun(6, directedRestartRun(arm), simpleRun(SafetyScenario, arm))
+	return mixRun(6, directedRestartRun(arm, 1), simpleRun(SafetyScenario, arm))
 }
 
 func init() {
@@ -26,7 +26,7 @@ func init() {
 		Rule: "a run is non-trivial iff some commit/pre-commit was sent with exactly M matching preparations or some view was entered with change-view requests from exactly M validators; distinct = distinct ordered delivery sequences"})
 	register(&PropSpec{ID: "C05", Run: safetyRun(func(s *Sim) { s.AddOracle(NewOracleC05(s)) }),
 		Rule: "a run is non-trivial iff an API call hit a decided-but-not-reset node, or a Reset skipped heights or changed the validator count, or a payload for a future height arrived from a validator that only the grown validator list of that height contains; distinct = distinct ordered delivery sequences"})
-	register(&PropSpec{ID: "C07", Run: simpleRun(AMEVScenario, func(s *Sim) { s.AddOracle(NewOracleC07(s)) }),
+	register(&PropSpec{ID: "C07", Run: mixRun(8, directedRestartRun(func(s *Sim) { s.AddOracle(NewOracleC07(s)) }, 3), simpleRun(AMEVScenario, func(s *Sim) { s.AddOracle(NewOracleC07(s)) })),
 		Rule: "a run is non-trivial iff a (pre)commit arrived before its proposal, a (pre)block callback failed, or the run crossed the enabling height; distinct = distinct ordered delivery sequences"})
 	register(&PropSpec{ID: "C10", Run: safetyRun(func(s *Sim) { s.AddOracle(NewOracleC10(s)) }),
 		Rule: "a run is non-trivial iff a nested view change (two or more views inside one call) or a recovery-request timeout (skip change view) occurred; distinct = distinct ordered delivery sequences"})
